@@ -1,0 +1,6 @@
+//go:build !verif
+// +build !verif
+
+package revision
+
+func verifPoint(name string, arg uint64) {}
